@@ -539,6 +539,8 @@ class C18(Check):
             elif r < 0.60:
                 ops.append({"op": "show", "brief": rng.random() < 0.5,
                             "params": rng.sample(keys, rng.randint(0, 2))})
+                if cfg_files and rng.random() < 0.3:
+                    ops[-1]["target"] = rng.choice(sorted(cfg_files))
             elif r < 0.70:
                 drop = [k for k in rng.sample(keys, rng.randint(1, 8))]
                 obsolete = {}
@@ -893,6 +895,9 @@ class C18(Check):
         if kind == "show":
             argv = ["show"] + nc + (["--brief"] if op["brief"] else
                                     []) + list(op.get("params", ()))
+            if op.get("target") and op["target"] in model.files:
+                argv = ["show"] + nc + ["-c", op["target"]] + (
+                    ["--brief"] if op["brief"] else [])
             results = self._run(sim, [{"cmd": "config", "argv": argv}])
             self._start_events(sim, model, res)
             v = self._check_process("show", results)
